@@ -18,7 +18,9 @@ from mc import common
 from mc.engine import cli
 from mc.engine.core import Acc, pmap_acc, shard
 
-STAT_SETS = [(0.5, 1.0), (1.0, 3.0), (3.0, 0.5)]
+# (a statistic may be exactly zero - min of a perfect first pose - and a
+# generic result may hold negative values)
+STAT_SETS = [(0.5, 1.0), (1.0, 3.0), (3.0, 0.5), (0.0, 0.0), (-3.0, 1.0)]
 
 
 def result_types(lengths):
@@ -70,7 +72,7 @@ def judge(types_list):
 
 
 REPRS = ("int-first", "int-later", "f32-first", "shared-first", "shared-all",
-         "readonly", "list")
+         "readonly", "list", "2d", "4x4")
 
 
 def judge_repr(case):
@@ -92,6 +94,12 @@ def judge_repr(case):
                 r.np_arrays[k] = (a + 0.25).astype(np.float32)
             elif rep == "readonly":
                 a.setflags(write=False)
+            elif rep == "2d":
+                r.np_arrays[k] = np.outer(a, [1.0, 2.0, 3.0, 4.0])
+            elif rep == "4x4":
+                # like the alignment matrix evo_ape / evo_rpe store
+                r.np_arrays[k] = np.eye(4) * (i + 1.0) + np.arange(16.0).reshape(
+                    4, 4) * (0.5 if k == "b" else 0.25)
             elif rep == "list" and i == 0:
                 r.np_arrays[k] = a.tolist()
         if (rep == "shared-first" and i == 0) or rep == "shared-all":
